@@ -7,6 +7,7 @@ from props import register
 from props import httpcommon as hc
 
 SIG2 = b'\r\n\r\n\x00\r\nQUIT\n'
+REJECT_US = 2000000   # a rejection is a synchronous decision of the parser: squid's close follows its last read at once (never seen above 0 s on the pinned tree)
 
 def v1(fam, src, dst, sport, dport):
     if fam == 'UNKNOWN':
@@ -29,7 +30,8 @@ class C38(hc.PProp):
     rule = ('each run = 8-24 connections to an http_port with require-proxy-header: a PROXY v1 or v2 header from a reference encoder (TCP4/TCP6/UNKNOWN/UNSPEC, '
             'PROXY/LOCAL commands, random addresses and ports, 0-3 TLVs) followed by an HTTP request, delivered under seeded segmentation down to single '
             'bytes; one third of the headers are malformed (bad signature or magic, oversized v1 line, out-of-range or zero ports, family mismatch, '
-            'short v2 length, bad version/command, truncated). non-trivial = at least one well-formed and one malformed header were judged; distinct = fingerprint')
+            'short v2 length, TLV running past or cut by the declared length, bad version/command, truncated); a malformed header must not get its request forwarded and, '
+            'once squid has read all of it, must make squid close the connection within 2 s. non-trivial = at least one well-formed and one malformed header were judged; distinct = fingerprint')
     quick_runs = 200
     thorough_runs = 5000
     quick_wall = 50
@@ -49,7 +51,7 @@ class C38(hc.PProp):
                  'dst': '198.51.100.%d' % rng.randint(1, 254) if fam != 'TCP6' else '2001:db8:1::%x' % rng.randint(1, 65535),
                  'sport': rng.choice([0, 1, 80, 1024, 40000, 65535]), 'dport': rng.choice([1, 3129, 65535]),
                  'tlvs': [[rng.choice([0x01, 0x02, 0x05, 0x20, 0x30, 0xE0]), rng.randint(0, 40)] for _ in range(rng.choice([0, 0, 1, 3]))] if ver == 2 else [],
-                 'seg': rng.choice(['rand', 'byte', 'whole', 'byte']), 'bad': rng.choice([None, None, 'sig', 'longline', 'port70000', 'portneg', 'mismatch', 'shortlen', 'version', 'command', 'truncated', 'garbage_addr', 'noheader', 'dport70000', 'dport6digits', 'dport_trailing', 'extra_field'])}
+                 'seg': rng.choice(['rand', 'byte', 'whole', 'byte']), 'bad': rng.choice([None, None, 'sig', 'longline', 'port70000', 'portneg', 'mismatch', 'shortlen', 'version', 'command', 'truncated', 'garbage_addr', 'noheader', 'dport70000', 'dport6digits', 'dport_trailing', 'extra_field', 'tlv_overrun', 'tlv_cut', 'shortlen12'])}
             conns.append(c)
         plan['conns'] = conns
         plan['_lists'] = ['conns']
@@ -61,6 +63,8 @@ class C38(hc.PProp):
         fam = c['fam'] if not (c['ver'] == 2 and c['fam'] == 'UNKNOWN') else 'UNSPEC'
         h = v1(c['fam'], c['src'], c['dst'], c['sport'], c['dport']) if c['ver'] == 1 else v2(c['cmd'], fam, c['src'], c['dst'], c['sport'], c['dport'], tl)
         b = c['bad']
+        # the PROXY specification has the receiver discard the whole block of a LOCAL or UNSPEC header, so damaged TLVs are malformed only otherwise
+        parsed_tlvs = c['cmd'] == 'PROXY' and c['fam'] != 'UNKNOWN'
         if b == 'sig':
             h = (b'PROXI' + h[5:]) if c['ver'] == 1 else (h[:5] + b'X' + h[6:])
         elif b == 'longline' and c['ver'] == 1:
@@ -81,6 +85,14 @@ class C38(hc.PProp):
             h = b'PROXY TCP6 192.0.2.1 198.51.100.1 1000 80\r\n'
         elif b == 'shortlen' and c['ver'] == 2 and c['fam'] != 'UNKNOWN':
             h = h[:14] + struct.pack('>H', 4) + h[16:20]
+        elif b == 'shortlen12' and c['ver'] == 2 and c['fam'] == 'TCP6':   # a complete header whose address block is an IPv4-sized one
+            h = h[:14] + struct.pack('>H', 12) + h[16:28]
+        elif b == 'tlv_overrun' and c['ver'] == 2 and tl and parsed_tlvs:                  # the last TLV claims more bytes than the declared header length holds
+            last = tl[-1]
+            h = h[:len(h) - len(last[1]) - 2] + struct.pack('>H', len(last[1]) + rng.randint(1, 300)) + last[1]
+        elif b == 'tlv_cut' and c['ver'] == 2 and tl and parsed_tlvs:                      # the declared header length ends inside the last TLV's type/length bytes
+            cut = len(tl[-1][1]) + rng.choice([1, 2])
+            h = h[:14] + struct.pack('>H', struct.unpack('>H', h[14:16])[0] - cut) + h[16:len(h) - cut]
         elif b == 'version' and c['ver'] == 2:
             h = h[:12] + bytes([0x31]) + h[13:]
         elif b == 'command' and c['ver'] == 2:
@@ -116,17 +128,18 @@ class C38(hc.PProp):
                 exp = (real, None)
             else:
                 exp = (c['src'], c['sport'])
-            expect[rid] = {'bad': bad, 'addr': exp, 'real': real}
+            expect[rid] = {'bad': bad, 'addr': exp, 'real': real, 'client': 'c%d' % i, 'ver': c['ver'], 'sent': len(h) + 0}
             cl = scn.client('c%d' % i, start=i * 2000, **{'from': real})
             cl.add('connect %s 3129' % hc.SQUID_IP)
             req = hc.request_head(b'GET', b'http://10.0.0.1/x%d' % c['id'], [(b'Host', b'10.0.0.1'), (b'X-Sim-Req', rid.encode())])
+            expect[rid]['sent'] = len(h + req)
             cl.add('send %s seg %s' % (tok(h + req), c['seg']))
             cl.add('expect response timeout 20000000 soft')
         return scn, expect
 
     def judge(self, plan, expect, hist, o):
         V = o.violations
-        stats = {'wellformed_judged': 0, 'malformed_judged': 0, 'log_lines_judged': 0}
+        stats = {'wellformed_judged': 0, 'malformed_judged': 0, 'log_lines_judged': 0, 'rejections_timed': 0}
         up = hc.upstream_requests_by_id(hist)
         for rid, e in expect.items():
             fw = up.get(rid.encode(), [])
@@ -134,6 +147,20 @@ class C38(hc.PProp):
                 stats['malformed_judged'] += 1
                 if fw:
                     V.append(Violation('C38:malformed-header-accepted:%s' % e['bad'], 'connection %s with a malformed PROXY header (%s) had its request forwarded' % (rid, e['bad'])))
+                # "rejected" is an outcome of its own: once the whole malformed header (and the request behind it) has been read, squid must give the
+                # connection up at once, not keep asking for bytes that cannot come. (A truncated v2 header may legitimately still be short of its declared length.)
+                cc = hist.client_conns(e['client'])
+                if cc and not fw and not (e['bad'] == 'truncated' and e['ver'] == 2):
+                    c = cc[0]
+                    closed = c.first('CLOSE')
+                    if c.sqrd_ev and c.sqrd >= e['sent']:
+                        stats['rejections_timed'] += 1
+                        last_read = c.sqrd_ev[-1][1]
+                        end_t = closed[1] if closed else hist.events[-1][1]
+                        self.max_reject_delay = max(getattr(self, 'max_reject_delay', 0), end_t - last_read)
+                        if (closed is None and end_t - last_read > REJECT_US) or (closed is not None and closed[1] - last_read > REJECT_US):
+                            V.append(Violation('C38:malformed-header-not-rejected:%s' % e['bad'], 'connection %s: squid had read all %d bytes (malformed PROXY v%d header, %s, plus a request) but %s' % (
+                                rid, e['sent'], e['ver'], e['bad'], 'still held the connection %.1f s later' % ((end_t - last_read) / 1e6) if closed is None else 'closed it only %.1f s later' % ((closed[1] - last_read) / 1e6))))
                 continue
             stats['wellformed_judged'] += 1
             if not fw:
